@@ -1,7 +1,187 @@
 package workerlib
 
+import (
+	"bytes"
+	"errors"
+	"io"
+
+	"github.com/200sc/bebop"
+)
+
+var errOverask = errors.New("verif: the decoder asked for bytes beyond the end of the record (would block on a live connection)")
+
+// schedReader owns a stream of back-to-back records and knows where each ends.
+// pattern caps the bytes one Read may return (applied cyclically; empty = no cap).
+// starved: nothing beyond the end of the current record is delivered; a Read
+// issued when the current record is exhausted is answered with errOverask.
+type schedReader struct {
+	data    []byte
+	pos     int
+	pattern []int
+	pi      int
+	ends    []int
+	cur     int
+	starved bool
+	overask bool
+	reads   int
+	log     func(req, got int)
+}
+
+func (r *schedReader) Read(p []byte) (int, error) {
+	if len(p) == 0 {
+		return 0, nil
+	}
+	r.reads++
+	limit := len(r.data)
+	if r.starved {
+		limit = r.ends[r.cur]
+	}
+	if r.pos >= limit {
+		if r.log != nil {
+			r.log(len(p), 0)
+		}
+		if r.starved {
+			r.overask = true
+			return 0, errOverask
+		}
+		return 0, io.EOF
+	}
+	n := limit - r.pos
+	if n > len(p) {
+		n = len(p)
+	}
+	if len(r.pattern) > 0 {
+		c := r.pattern[r.pi%len(r.pattern)]
+		r.pi++
+		if n > c {
+			n = c
+		}
+	}
+	copy(p, r.data[r.pos:r.pos+n])
+	r.pos += n
+	if r.log != nil {
+		r.log(len(p), n)
+	}
+	return n, nil
+}
+
+// opStream: several records back to back on one stream, read back with
+// DecodeBebop under every fragmentation pattern, greedy and starved.
 func opStream(pi *pkgInfo, c *Cmd) {
-	emit(&Event{Ev: "cmd", Cid: c.Cid, Res: "harness-error", Msg: "stream op not built yet"})
+	vals := append([]Val{c.V}, c.Seq...)
+	recs := make([]bebop.Record, len(vals))
+	for i, v := range vals {
+		recs[i] = buildRecord(pi, c.Root, v, (c.Cid+i)%2 == 0)
+	}
+	type stream struct {
+		kind string
+		data []byte
+		ends []int
+	}
+	var streams []stream
+	// reference stream: the specification's bytes
+	{
+		var b []byte
+		var ends []int
+		b = append(b, bytesFromInts(c.Ref)...)
+		ends = append(ends, len(b))
+		for _, e := range c.SeqEnc {
+			b = append(b, bytesFromInts(e)...)
+			ends = append(ends, len(b))
+		}
+		streams = append(streams, stream{"ref", b, ends})
+	}
+	// the real encoder writing the records back to back
+	m := 0
+	{
+		var buf bytes.Buffer
+		var ends []int
+		ok := true
+		for i, rec := range recs {
+			begin(c.Cid, m, &Event{Ev: "swrite", API: "EncodeBebop", Rec: ip(i)})
+			e := &Event{Ev: "swrite", Cid: c.Cid, M: m, API: "EncodeBebop", Rec: ip(i)}
+			rec := rec
+			e.Res, e.Msg, e.Big, e.Alloc = call(64, func() error { return rec.EncodeBebop(&buf) })
+			if e.Res != "nil" {
+				ok = false
+			}
+			ends = append(ends, buf.Len())
+			emit(e)
+			m++
+		}
+		if ok {
+			streams = append(streams, stream{"enc", buf.Bytes(), ends})
+		}
+	}
+	scheds := append([][]int{nil}, c.Scheds...)
+	for _, st := range streams {
+		for si, pat := range scheds {
+			for _, starved := range []bool{false, true} {
+				// the real-encoder stream is read greedily and starved under a third of the patterns
+				if st.kind == "enc" && si%3 != c.Cid%3 {
+					continue
+				}
+				style := "greedy"
+				if starved {
+					style = "starved"
+				}
+				data := st.data
+				if !starved {
+					data = append(append([]byte{}, st.data...), trailer...)
+				}
+				r := &schedReader{data: data, pattern: pat, ends: st.ends, starved: starved}
+				// read-level trace (validated against StreamAbs) for the unfragmented run and one pattern
+				traced := st.kind == "ref" && (si == 0 || si == 1+c.Cid%len(scheds[1:]))
+				if traced {
+					emit(&Event{Ev: "sbegin", Cid: c.Cid, M: m, Res: "nil", Ends: st.ends, Style: style, Sched: ip(si)})
+					logged := 0
+					r.log = func(req, got int) {
+						// a decoder that has lost its place may loop over a garbage count: keep the trace finite
+						if logged < 2000 {
+							emit(&Event{Ev: "sread", Cid: c.Cid, M: m, Res: "nil", Req: ip(req), Got: ip(got)})
+						}
+						logged++
+					}
+				}
+				start := 0
+				for i := range vals {
+					r.cur = i
+					r.overask = false
+					begin(c.Cid, m, &Event{Ev: "srec", API: "DecodeBebop", Kind: st.kind, Style: style, Sched: ip(si), Rec: ip(i)})
+					e := &Event{Ev: "srec", Cid: c.Cid, M: m, API: "DecodeBebop", Kind: st.kind, Style: style, Sched: ip(si), Rec: ip(i)}
+					rec := newRecord(pi.Pid, c.Root)
+					e.Res, e.Msg, e.Big, e.Alloc = call(len(data), func() error { return rec.DecodeBebop(r) })
+					e.Consumed = ip(r.pos - start)
+					n := st.ends[i]
+					if i > 0 {
+						n -= st.ends[i-1]
+					}
+					e.N = ip(n)
+					e.Overask = r.overask
+					if e.Res == "nil" {
+						v, err := liftRecord(pi, c.Root, rec)
+						if err != nil {
+							e.Res = "harness-error"
+							e.Msg = err.Error()
+						} else {
+							e.Val = v
+							e.HasVal = true
+						}
+					}
+					emit(e)
+					if traced && e.Res == "nil" {
+						emit(&Event{Ev: "sret", Cid: c.Cid, M: m, Res: "nil", Rec: ip(i)})
+					}
+					m++
+					// the next record is read from where the stream now stands (a mis-read propagates, as it would for a user)
+					start = r.pos
+					if e.Res != "nil" {
+						break
+					}
+				}
+			}
+		}
+	}
 }
 
 func opEvolve(pi *pkgInfo, c *Cmd) {
